@@ -11,13 +11,25 @@
 
    This file states WHAT THE TRANSLATION COMPUTES: the cascade spec_reasonable
    (unfolded in C20F_spec_meaning), for all word lists, every tolower, all
-   names, every byte string, and every range_string that yields index 0 first
-   and never again. It depends on the translation and Model/Base.v only, so a
-   rewrite of the Go code with the same meaning (8 > len(password); the
-   operands of == swapped) keeps it compiling, and a change of meaning
+   names and every byte string - UNDER THE HYPOTHESIS well_indexed
+   (range_string pw): the decoder handed in for Go's range over a string
+   yields index 0 first and never again. That hypothesis is not discharged
+   here; Properties/C20G.v discharges it for the decoder built from the model's
+   decode1 (C20G_range_string). For a range_string that is not well_indexed the
+   theorem says nothing. The file depends on the translation and Model/Base.v
+   only, so a rewrite of the Go code with the same meaning (8 > len(password);
+   the operands of == swapped) keeps it compiling, and a change of meaning
    (< 8 -> <= 8; dictionary before the compromised list; `first != 0` dropped;
    a sequence row changed) breaks it. Properties/C20G.v: Model/Password.v is
-   that cascade, hence translation = model. Proofs in Proofs/PwFnEquiv.v. *)
+   that cascade, hence translation = model. Proofs in Proofs/PwFnEquiv.v.
+
+   The translator (translator/pw_fn.go) is trusted code: it rejects shadowing
+   declarations and assignments to the range variables, requires exactly one
+   const block (the Password* iota block), []string word lists and the standard
+   `strings` import; generated names contain an apostrophe, which no Go
+   identifier can. tolower, contains and bytes_eqb stand for strings.ToLower,
+   strings.Contains and == on strings: that they are is C20's differential
+   check, not a theorem. *)
 From Sessions Require Import Model.Base Gen.PwFn Proofs.PwFnEquiv.
 
 Theorem C20F_spec_meaning :
